@@ -7,6 +7,7 @@ import RosuModel.Model.AttrsWire
 import RosuModel.Model.ModsWire
 import RosuModel.Model.StrainsWire
 import RosuModel.Model.GenStateWire
+import RosuModel.Model.FiniteWire
 
 open Rosu
 
@@ -39,6 +40,7 @@ def handle (line : String) : String :=
   | ["SKILL", kind, fuel, objs] => StrainsWire.handleSKILL kind fuel objs
   | ["SECT", l, fuel, times] => StrainsWire.handleSECT l fuel times
   | "GS" :: mode :: args => GenState.handleGS mode args
+  | "C09" :: args => Finite.handleFinite args
   | _ => "bad-op"
 
 partial def loop (h : IO.FS.Stream) (out : IO.FS.Stream) : IO Unit := do
